@@ -18,6 +18,8 @@ TARGETS = {
     "C01-d": ["C01", "C09"], "C02-d": ["C02", "C01", "C03"], "C03-d": ["C03", "C09", "C05"], "C04-d": ["C04"],
     "C05-d": ["C05", "C09", "C14"], "C06-d": ["C06", "C09"], "C07-d": ["C07"], "C08-d": ["C08"], "C09-d": ["C09"],
     "C13-d": ["C13", "C14"],
+    "C10-d": ["C10"], "C11-d": ["C11", "C12", "C14"], "C12-d": ["C12", "C07", "C13"], "C14-d": ["C14"],
+    "C15-d": ["C15", "C14"], "C16-d": ["C16", "C19"], "C17-d": ["C17"], "C18-d": ["C18"], "C19-d": ["C19"],
 }
 only = sys.argv[1:]
 for sid in sorted(os.listdir("/verif/seeded")):
